@@ -85,7 +85,7 @@ def make_scripted(N: int, *, with_z: bool = False, with_x: bool = True, base=Non
         def solve_t_before(self, t, *, errors='raise', catch_first_error=True, iteration=None, **kwargs):
             st, s, tc = self._sx_for(t)
             st['log'].append(('before', iteration))
-            st['tlog'].append(('before', tc, iteration))
+            st['tlog'].append(('before', tc, iteration, st.get('id')))
             kb = s.kb
             if kb == RAISE:
                 raise HookFault('scripted pre-hook fault')
@@ -96,7 +96,7 @@ def make_scripted(N: int, *, with_z: bool = False, with_x: bool = True, base=Non
         def solve_t_after(self, t, *, errors='raise', catch_first_error=True, iteration=None, **kwargs):
             st, s, tc = self._sx_for(t)
             st['log'].append(('after', iteration))
-            st['tlog'].append(('after', tc, iteration))
+            st['tlog'].append(('after', tc, iteration, st.get('id')))
             ka = s.ka
             if ka == RAISE:
                 raise HookFault('scripted post-hook fault')
@@ -109,7 +109,7 @@ def make_scripted(N: int, *, with_z: bool = False, with_x: bool = True, base=Non
             st['pass'][tc] = st['pass'].get(tc, 0) + 1
             p = st['pass'][tc]
             st['log'].append(('eval', iteration))
-            st['tlog'].append(('eval', tc, iteration))
+            st['tlog'].append(('eval', tc, iteration, st.get('id')))
             if p > s.B:
                 raise AssertionError('script exhausted: more passes than max_iter')
             kind, fs = s.kind[p], s.fs[p]
